@@ -817,6 +817,68 @@ impl Gen {
                 return;
             }
         }
+        if self.p.multimaps && self.p.w_reader > 0 && self.readers.len() < 3 && self.its.len() < 3 && !self.long_bytes.is_empty() && rng.random_range(0..100) < 5 {
+            // a multimap key gets one or two long values and a few short ones (a value subtree of very few, uneven leaves); a
+            // reader takes the key's values (borrowed or owned) and its transaction handle goes; later transactions remove the
+            // values one by one - the subtree collapses, the list goes back inline - and write elsewhere; the old values
+            // are read on between the commits
+            let multi: Vec<(String, Ty)> = self.known.iter().filter(|(_, t)| t.0 == "m" && t.2 == "bytes").map(|(n, t)| (n.clone(), t.clone())).collect();
+            if !multi.is_empty() {
+                let (n, ty) = multi[rng.random_range(0..multi.len())].clone();
+                let k = self.key(rng, &n) % 4;
+                let mut vals: Vec<u32> = vec![self.long_bytes[rng.random_range(0..self.long_bytes.len())]];
+                if rng.random_range(0..3) == 0 {
+                    vals.push(self.long_bytes[rng.random_range(0..self.long_bytes.len())]);
+                }
+                for _ in 0..rng.random_range(2..5) {
+                    vals.push(rng.random_range(0..self.nkeys));
+                }
+                vals.sort();
+                vals.dedup();
+                for i in (1..vals.len()).rev() {
+                    vals.swap(i, rng.random_range(0..=i));
+                }
+                self.queue.push_back(json!({"e": "bw"}));
+                self.queue.push_back(json!({"e": "open", "n": n, "kind": "m", "kt": ty.1, "vt": ty.2}));
+                self.queue.push_back(json!({"e": "mremall", "n": n, "k": k}));
+                for v in &vals {
+                    self.queue.push_back(json!({"e": "mins", "n": n, "k": k, "v": v}));
+                }
+                self.queue.push_back(json!({"e": "close", "n": n}));
+                self.queue.push_back(json!({"e": "commit"}));
+                let (h, it) = (self.fresh("r"), self.fresh("m"));
+                self.queue.push_back(json!({"e": "br", "h": h}));
+                self.queue.push_back(json!({"e": "mhold", "it": it, "src": h, "n": n, "kt": ty.1, "vt": ty.2, "k": k, "owned": rng.random_range(0..2) == 0}));
+                self.queue.push_back(json!({"e": "dr", "h": h}));
+                for i in (1..vals.len()).rev() {
+                    vals.swap(i, rng.random_range(0..=i));
+                }
+                let other: Vec<(String, Ty)> = self.known.iter().filter(|(m, t)| t.0 == "t" && **m != n).map(|(m, t)| (m.clone(), t.clone())).collect();
+                for v in &vals {
+                    self.queue.push_back(json!({"e": "bw"}));
+                    if rng.random_range(0..2) == 0 {
+                        self.queue.push_back(json!({"e": "dur", "d": "none"}));
+                    }
+                    self.queue.push_back(json!({"e": "open", "n": n, "kind": "m", "kt": ty.1, "vt": ty.2}));
+                    self.queue.push_back(json!({"e": "mrem", "n": n, "k": k, "v": v}));
+                    self.queue.push_back(json!({"e": "close", "n": n}));
+                    if let Some((m, mt)) = other.first() {
+                        // pages released by the removal are taken again
+                        self.queue.push_back(json!({"e": "open", "n": m, "kind": "t", "kt": mt.1, "vt": mt.2}));
+                        for _ in 0..rng.random_range(1..4) {
+                            let val = self.value(rng, &mt.2);
+                            self.queue.push_back(json!({"e": "ins", "n": m, "k": self.key(rng, m), "v": val}));
+                        }
+                        self.queue.push_back(json!({"e": "close", "n": m}));
+                    }
+                    self.queue.push_back(json!({"e": "commit"}));
+                    self.queue.push_back(json!({"e": "mitnext", "it": it, "cnt": 1, "rev": rng.random_range(0..2) == 0}));
+                }
+                self.queue.push_back(json!({"e": "mitnext", "it": it, "cnt": 8, "rev": false}));
+                self.queue.push_back(json!({"e": "itdrop", "it": it}));
+                return;
+            }
+        }
         if self.p.w_compact > 0 && self.p.w_reader > 0 && self.readers.len() < 4 && rng.random_range(0..100) < 6 {
             // compact() while a read transaction is open, in every position relative to pending non-durable commits
             // (the reader may sit on the durable commit, on a pending one, or before both): it must be refused, and run
